@@ -82,3 +82,14 @@ class Prog(Event):
 
 class MyStop(StopEvent):
     value: Optional[Any] = None
+
+
+from pydantic import BaseModel, Field  # noqa: E402
+
+
+class TypedState(BaseModel):
+    """typed run state: ``items`` is never assigned, only mutated in place; ``n`` is assigned; ``note`` is never touched"""
+    items: list[int] = Field(default_factory=list)
+    seen: dict[str, int] = Field(default_factory=dict)
+    n: int = 0
+    note: str = "init"
